@@ -49,6 +49,11 @@ Bases == <<
   body |-> <<Func("helper", <<Param("seed", "int")>>, <<"int">>, <<Def1("acc", Bin("*", V("seed"), I(2))), RetS(<<V("acc")>>)>>),
              Func("work", <<Param("n", "int")>>, <<"int">>, <<Def1("keep", I(10)), Def1("extra", CallE("helper", <<V("n")>>)), RetS(<<Bin("+", V("keep"), V("extra"))>>)>>),
              PrintS(<<CallE("work", <<I(3)>>), CallE("work", <<I(4)>>)>>)>>],
+ \* a variable that is only ever written, among several targets, with values whose evaluation has effects
+ [name |-> "writeonly", vars |-> <<"kept", "spare", "issued">>, funcs |-> <<"ticket">>,
+  body |-> <<Def1("issued", I(0)), Func("ticket", <<>>, <<"int">>, <<Inc("issued"), PrintS(<<StrL("ticket"), V("issued")>>), RetS(<<V("issued")>>)>>),
+             Def(<<"kept", "spare">>, <<I(1), Bin("+", CallE("ticket", <<>>), I(1))>>), Asg(<<"kept", "spare">>, <<Bin("+", V("kept"), I(1)), Bin("*", CallE("ticket", <<>>), I(2))>>),
+             Asg(<<"spare", "kept">>, <<LenE(Itoa(CallE("ticket", <<>>))), Bin("+", V("kept"), I(1))>>), PrintS(<<V("kept"), V("issued")>>)>>],
  \* caller and callee use the SAME spelling for a local, a parameter and a loop variable; the caller's are live across the call
  [name |-> "samelocal", vars |-> <<"acc", "val", "i">>, funcs |-> <<"inner", "outer">>,
   body |-> <<Func("inner", <<Param("val", "int")>>, <<"int">>, <<Def1("acc", I(0)), For3(Def1("i", I(0)), CmpE("<", V("i"), V("val")), Inc("i"), <<Compound("acc", "+", I(2))>>), RetS(<<V("acc")>>)>>),
@@ -99,7 +104,7 @@ ShapeNames == <<"path_h1", "col_h0", "low_h10", "x_rv0", "my_fa0", "a_fv0", "n_d
                 "forward", "iffy", "lenx", "printer", "returned", "inputs", "copy2", "range_", "truex", "nilly", "funcy", "vary", "switcher", "caseA", "defaultX", "breaker", "continued",
                 "importer", "elsewhere", "itoa_", "existsx", "readme", "writer", "panic2", "_acc", "_x", "__", "_1", "_tmp_", "A", "aA", "a_", "a1b2",
                 "a_very_long_identifier_name_that_goes_on_and_on_1", "a_very_long_identifier_name_that_goes_on_and_on_2", "Z9", "z_9_", "ONE", "camelCaseName", "snake_case_name">>
-ShapeBases == {"multi", "func", "loops", "slice", "string", "callerlocal", "arith", "samelocal"}
+ShapeBases == {"multi", "func", "loops", "slice", "string", "callerlocal", "arith", "samelocal", "writeonly"}
 ShapeOf(b) == UNION {{Mk("C10/" \o AllBases[b].name \o "/shape/" \o AllBases[b].vars[i] \o "/" \o ShapeNames[n], AllBases[b], [v |-> (AllBases[b].vars[i] :> ShapeNames[n]), f |-> Empty], IsWorld(AllBases[b]))
                       : n \in 1..Len(ShapeNames)} : i \in 1..Len(AllBases[b].vars)}
 Shape == UNION {ShapeOf(b) : b \in {k \in 1..Len(AllBases) : AllBases[k].name \in ShapeBases}}
